@@ -18,7 +18,8 @@ ASSUMPTIONS = [
 
 
 def tasks(tier):
-    return [A.NegAcceptTask("C13/"), A.CheckIdentityTask("C13/"), codec.LayoutTask("A_ASSOCIATE_RQ", 1, "C13/")]
+    return [A.NegAcceptTask("C13/"), A.CheckIdentityTask("C13/"), codec.LayoutTask("A_ASSOCIATE_RQ", 1, "C13/"),
+            A.WireTitleTask("calling", "C13/"), A.WireTitleTask("called", "C13/")]
 
 
 def replay(rec):
